@@ -13,6 +13,7 @@ use smartcore::cluster::kmeans::{KMeans, KMeansParameters};
 use smartcore::ensemble::random_forest_classifier::{RandomForestClassifier, RandomForestClassifierParameters};
 use smartcore::ensemble::random_forest_regressor::{RandomForestRegressor, RandomForestRegressorParameters};
 use smartcore::linalg::naive::dense_matrix::DenseMatrix;
+use smartcore::math::num::RealNumber;
 use smartcore::model_selection::{BaseKFold, KFold};
 use smartcore::tree::decision_tree_classifier::{DecisionTreeClassifier, SplitCriterion};
 use smartcore::tree::decision_tree_regressor::DecisionTreeRegressor;
@@ -55,9 +56,23 @@ pub struct Case {
     /// how the parameter struct is built: 0 = struct literal, 1 = builder chain, 2 = builder chain in reverse order
     #[serde(default)]
     pub ctor: u8,
+    /// fit and query in single precision (data, labels and queries are f32-representable)
+    #[serde(default)]
+    pub f32m: bool,
 }
 
 pub struct C06;
+
+fn mat_t<T: RealNumber>(rows: &[Vec<f64>]) -> DenseMatrix<T> {
+    let n = rows.len();
+    let p = rows[0].len();
+    let v: Vec<T> = rows.iter().flatten().map(|x| T::from_f64(*x).unwrap()).collect();
+    DenseMatrix::from_array(n, p, &v)
+}
+
+fn to64<T: RealNumber>(v: Vec<T>) -> Vec<f64> {
+    v.iter().map(|x| x.to_f64().unwrap_or(f64::NAN)).collect()
+}
 
 fn mat(rows: &[Vec<f64>]) -> DenseMatrix<f64> {
     let n = rows.len();
@@ -91,10 +106,19 @@ struct FitOut {
 }
 
 fn fit_once(case: &Case, ambient: &Option<TapeSpec>) -> (FitOut, Option<Box<dyn std::any::Any + Send>>) {
-    let x = mat(&case.x);
+    if case.f32m {
+        fit_once_t::<f32>(case, ambient)
+    } else {
+        fit_once_t::<f64>(case, ambient)
+    }
+}
+
+fn fit_once_t<T: RealNumber + Serialize + Send + 'static>(case: &Case, ambient: &Option<TapeSpec>) -> (FitOut, Option<Box<dyn std::any::Any + Send>>) {
+    let x: DenseMatrix<T> = mat_t(&case.x);
+    let yt: Vec<T> = case.y.iter().map(|v| T::from_f64(*v).unwrap()).collect();
     let mut q = case.x.clone();
     q.extend(case.queries.iter().cloned());
-    let qm = mat(&q);
+    let qm: DenseMatrix<T> = mat_t(&q);
     let guard = ambient.as_ref().map(TapeGuard::install);
     let p = &case.params;
     let mut out = FitOut { bytes: vec![], pred: vec![], oob: None, alt: None, single: None, tall: None, repeat_mismatch: None, calls: 0, words_consumed: None, value: Value::Null, err: None };
@@ -143,14 +167,14 @@ fn fit_once(case: &Case, ambient: &Option<TapeSpec>) -> (FitOut, Option<Box<dyn 
                     .with_criterion(criterion_of(&p.criterion))
             }
         };
-        match guarded(|| RandomForestClassifier::fit(&x, &case.y, params)) {
+        match guarded(|| RandomForestClassifier::<T>::fit(&x, &yt, params)) {
             Err(msg) => out.err = Some(format!("panic: {}", msg)),
             Ok(Err(e)) => out.err = Some(format!("error: {}", e)),
             Ok(Ok(model)) => {
                 out.words_consumed = guard.as_ref().map(|g| g.served());
                 out.bytes = bincode::serialize(&model).unwrap_or_default();
                 out.value = serde_json::to_value(&model).unwrap_or(Value::Null);
-                run_ops(case, &mut out, &x, &qm, &|m| model.predict(m), &|m| model.predict_oob(m));
+                run_ops::<T>(case, &mut out, &x, &qm, &|m| model.predict(m).map(to64), &|m| model.predict_oob(m).map(to64));
                 model_box = Some(Box::new(model));
             }
         }
@@ -195,14 +219,14 @@ fn fit_once(case: &Case, ambient: &Option<TapeSpec>) -> (FitOut, Option<Box<dyn 
                     .with_min_samples_leaf(p.min_samples_leaf)
             }
         };
-        match guarded(|| RandomForestRegressor::fit(&x, &case.y, params)) {
+        match guarded(|| RandomForestRegressor::<T>::fit(&x, &yt, params)) {
             Err(msg) => out.err = Some(format!("panic: {}", msg)),
             Ok(Err(e)) => out.err = Some(format!("error: {}", e)),
             Ok(Ok(model)) => {
                 out.words_consumed = guard.as_ref().map(|g| g.served());
                 out.bytes = bincode::serialize(&model).unwrap_or_default();
                 out.value = serde_json::to_value(&model).unwrap_or(Value::Null);
-                run_ops(case, &mut out, &x, &qm, &|m| model.predict(m), &|m| model.predict_oob(m));
+                run_ops::<T>(case, &mut out, &x, &qm, &|m| model.predict(m).map(to64), &|m| model.predict_oob(m).map(to64));
                 model_box = Some(Box::new(model));
             }
         }
@@ -214,21 +238,61 @@ fn fit_once(case: &Case, ambient: &Option<TapeSpec>) -> (FitOut, Option<Box<dyn 
     (out, model_box)
 }
 
+/// rebuild every member tree from the forest's serde image and call its real `predict` on `rows`
+fn member_predictions<T: RealNumber + serde::de::DeserializeOwned>(task: &str, trees: &[Value], rows: &[Vec<f64>]) -> Result<Vec<Vec<f64>>, (usize, String)> {
+    let qm: DenseMatrix<T> = mat_t(rows);
+    let mut member = vec![];
+    for (t, tv) in trees.iter().enumerate() {
+        let r = if task == "clf" {
+            serde_json::from_value::<DecisionTreeClassifier<T>>(tv.clone())
+                .map_err(|e| e.to_string())
+                .and_then(|tr| guarded(|| tr.predict(&qm)).and_then(|r| r.map_err(|e| e.to_string())))
+        } else {
+            serde_json::from_value::<DecisionTreeRegressor<T>>(tv.clone())
+                .map_err(|e| e.to_string())
+                .and_then(|tr| guarded(|| tr.predict(&qm)).and_then(|r| r.map_err(|e| e.to_string())))
+        };
+        match r {
+            Ok(v) => member.push(to64(v)),
+            Err(e) => return Err((t, e)),
+        }
+    }
+    Ok(member)
+}
+
+/// byte-identical twins must also be equal under the model's own PartialEq
+fn twins_compare_unequal<T: RealNumber + serde::de::DeserializeOwned>(task: &str, a: &[u8], b: &[u8]) -> bool {
+    if task == "clf" {
+        match (bincode::deserialize::<RandomForestClassifier<T>>(a), bincode::deserialize::<RandomForestClassifier<T>>(b)) {
+            (Ok(ma), Ok(mb)) => ma != mb,
+            _ => false,
+        }
+    } else {
+        match (bincode::deserialize::<RandomForestRegressor<T>>(a), bincode::deserialize::<RandomForestRegressor<T>>(b)) {
+            (Ok(ma), Ok(mb)) => ma != mb,
+            _ => false,
+        }
+    }
+}
+
 /// the "different content, same shape" matrix of op 2
 fn alt_rows(case: &Case) -> Vec<Vec<f64>> {
     let mut r: Vec<Vec<f64>> = case.x.iter().rev().cloned().collect();
     for (i, row) in r.iter_mut().enumerate() {
         row[0] += 0.5 + (i % 3) as f64;
+        if case.f32m {
+            row[0] = row[0] as f32 as f64;
+        }
     }
     r
 }
 
-type PredFn<'a> = &'a dyn Fn(&DenseMatrix<f64>) -> Result<Vec<f64>, smartcore::error::Failed>;
+type PredFn<'a, T> = &'a dyn Fn(&DenseMatrix<T>) -> Result<Vec<f64>, smartcore::error::Failed>;
 
 /// issue the case's call sequence against one fitted forest; the first result of each kind is kept
 /// for the oracles, every repetition must be bit-identical to it
-fn run_ops(case: &Case, out: &mut FitOut, x: &DenseMatrix<f64>, qm: &DenseMatrix<f64>, predict: PredFn<'_>, predict_oob: PredFn<'_>) {
-    let alt = mat(&alt_rows(case));
+fn run_ops<T: RealNumber>(case: &Case, out: &mut FitOut, x: &DenseMatrix<T>, qm: &DenseMatrix<T>, predict: PredFn<'_, T>, predict_oob: PredFn<'_, T>) {
+    let alt: DenseMatrix<T> = mat_t(&alt_rows(case));
     let default_ops = [0u8, 1u8];
     let ops: &[u8] = if case.ops.is_empty() { &default_ops } else { &case.ops };
     let mut seen_pred = false;
@@ -241,11 +305,11 @@ fn run_ops(case: &Case, out: &mut FitOut, x: &DenseMatrix<f64>, qm: &DenseMatrix
             0 => guarded(|| predict(qm)),
             1 => guarded(|| predict_oob(x)),
             2 => guarded(|| predict(&alt)),
-            3 => guarded(|| predict(&mat(&case.x[0..1]))),
+            3 => guarded(|| predict(&mat_t::<T>(&case.x[0..1]))),
             _ => {
                 let mut t = case.x.clone();
                 t.extend(case.x.iter().cloned());
-                guarded(|| predict(&mat(&t)))
+                guarded(|| predict(&mat_t::<T>(&t)))
             }
         };
         let name = ["predict", "predict_oob", "predict(other matrix of the training shape)", "predict(single-row matrix)", "predict(training rows stacked twice)"][(*op).min(4) as usize];
@@ -475,16 +539,9 @@ impl C06 {
         }
         rep.count("steps.forest_api_calls", a.calls + b.calls);
         // model's own equality: a model equals its twin
-        if case.task == "clf" {
-            if let (Ok(ma), Ok(mb)) = (bincode::deserialize::<RandomForestClassifier<f64>>(&a.bytes), bincode::deserialize::<RandomForestClassifier<f64>>(&b.bytes)) {
-                if a.bytes == b.bytes && ma != mb {
-                    rep.fail("irreproducible", "partial-eq", format!("{}: byte-identical twins compare unequal under the model's own PartialEq", ctx));
-                }
-            }
-        } else if let (Ok(ma), Ok(mb)) = (bincode::deserialize::<RandomForestRegressor<f64>>(&a.bytes), bincode::deserialize::<RandomForestRegressor<f64>>(&b.bytes)) {
-            if a.bytes == b.bytes && ma != mb {
-                rep.fail("irreproducible", "partial-eq", format!("{}: byte-identical twins compare unequal under the model's own PartialEq", ctx));
-            }
+        let twins_unequal = if case.f32m { twins_compare_unequal::<f32>(&case.task, &a.bytes, &b.bytes) } else { twins_compare_unequal::<f64>(&case.task, &a.bytes, &b.bytes) };
+        if a.bytes == b.bytes && twins_unequal {
+            rep.fail("irreproducible", "partial-eq", format!("{}: byte-identical twins compare unequal under the model's own PartialEq", ctx));
         }
         let mut md = Digest::new();
         md.bytes(&a.bytes);
@@ -516,33 +573,21 @@ impl C06 {
         let altm = alt_rows(case);
         let mut q_all = q.clone();
         q_all.extend(altm.iter().cloned());
-        let qm = mat(&q_all);
-        let mut member: Vec<Vec<f64>> = vec![];
-        for (t, tv) in trees.iter().enumerate() {
-            let r = if case.task == "clf" {
-                serde_json::from_value::<DecisionTreeClassifier<f64>>(tv.clone()).map_err(|e| e.to_string()).and_then(|tr| {
-                    guarded(|| tr.predict(&qm)).map_err(|m| m).and_then(|r| r.map_err(|e| e.to_string()))
-                })
-            } else {
-                serde_json::from_value::<DecisionTreeRegressor<f64>>(tv.clone()).map_err(|e| e.to_string()).and_then(|tr| {
-                    guarded(|| tr.predict(&qm)).map_err(|m| m).and_then(|r| r.map_err(|e| e.to_string()))
-                })
-            };
-            match r {
-                Ok(v) => member.push(v),
-                Err(e) => {
-                    rep.fail("member-tree", "forest-model", format!("{}: member tree {} cannot be rebuilt / predict: {}", ctx, t, e));
-                    rep.log_digest = d.get();
-                    return;
-                }
+        let member: Vec<Vec<f64>> = match if case.f32m { member_predictions::<f32>(&case.task, &trees, &q_all) } else { member_predictions::<f64>(&case.task, &trees, &q_all) } {
+            Ok(m) => m,
+            Err((t, e)) => {
+                rep.fail("member-tree", "forest-model", format!("{}: member tree {} cannot be rebuilt / predict: {}", ctx, t, e));
+                rep.log_digest = d.get();
+                return;
             }
-        }
+        };
         let mut labels = case.y.clone();
         labels.sort_by(|x, y| x.partial_cmp(y).unwrap());
         labels.dedup();
         let ymin = case.y.iter().cloned().fold(f64::INFINITY, f64::min);
         let ymax = case.y.iter().cloned().fold(f64::NEG_INFINITY, f64::max);
         let yscale = ymin.abs().max(ymax.abs()).max(1.0);
+        let (mean_tol, range_tol) = if case.f32m { (1e-5, 1e-5) } else { (1e-12, 1e-9) };
         let agg = |rows_of_trees: &[usize], row: usize| -> (Vec<(f64, usize)>, f64) {
             // (votes per label, mean)
             let mut votes: Vec<(f64, usize)> = labels.iter().map(|l| (*l, 0usize)).collect();
@@ -601,11 +646,11 @@ impl C06 {
                 } else {
                     let err = (a_pred(i) - mean).abs();
                     rep.max("reg_mean_err_rel", err / yscale);
-                    if !(err <= 1e-12 * yscale) {
+                    if !(err <= mean_tol * yscale) {
                         rep.fail("not-mean", "forest-predict", format!("{}: predict returned {:e} for row {:?}; the mean of the member trees is {:e}", ctx, a_pred(i), q[i], mean));
                         break;
                     }
-                    if !(a_pred(i) >= ymin - 1e-9 * yscale && a_pred(i) <= ymax + 1e-9 * yscale) {
+                    if !(a_pred(i) >= ymin - range_tol * yscale && a_pred(i) <= ymax + range_tol * yscale) {
                         rep.fail("out-of-range", "forest-predict", format!("{}: prediction {:e} for row {:?} is outside the target range [{:e}, {:e}]", ctx, a_pred(i), q[i], ymin, ymax));
                         break;
                     }
@@ -647,7 +692,7 @@ impl C06 {
                     } else {
                         let err = (oob[i] - mean).abs();
                         rep.max("reg_oob_mean_err_rel", err / yscale);
-                        if !(err <= 1e-12 * yscale) {
+                        if !(err <= mean_tol * yscale) {
                             rep.fail(
                                 "oob-not-mean",
                                 "forest-oob",
@@ -655,7 +700,7 @@ impl C06 {
                             );
                             break;
                         }
-                        if !(oob[i] >= ymin - 1e-9 * yscale && oob[i] <= ymax + 1e-9 * yscale) {
+                        if !(oob[i] >= ymin - range_tol * yscale && oob[i] <= ymax + range_tol * yscale) {
                             rep.fail("out-of-range", "forest-oob", format!("{}: OOB prediction {:e} for row {} outside the target range", ctx, oob[i], i));
                             break;
                         }
@@ -754,7 +799,8 @@ fn gen_case(batch: &str, _index: u64, seed: u64) -> Case {
             &[-0.5, 0.5, 0.1, 2.0],
             &[1e6, 1000000.5, -1e-3, 1e-3],
         ];
-        let ls = label_sets[pr.below(9) as usize];
+        // (the one-ulp-apart f64 labels would collapse in f32)
+        let ls = label_sets[if batch == "twins-f32" { 1 + pr.below(8) as usize } else { pr.below(9) as usize }];
         let skew = pr.chance(0.4);
         let mut yy: Vec<f64> = (0..n)
             .map(|i| {
@@ -821,10 +867,23 @@ fn gen_case(batch: &str, _index: u64, seed: u64) -> Case {
     };
     let nq = pr.usize_in(0, 8);
     let queries = (0..nq).map(|_| (0..p).map(|_| r.range(-4.0, 4.0)).collect()).collect();
+    let f32m = batch == "twins-f32";
+    let (mut x, mut y) = (x, y);
+    let mut queries: Vec<Vec<f64>> = queries;
+    if f32m {
+        for row in x.iter_mut().chain(queries.iter_mut()) {
+            for v in row.iter_mut() {
+                *v = *v as f32 as f64;
+            }
+        }
+        for v in y.iter_mut() {
+            *v = *v as f32 as f64;
+        }
+    }
     let ta = TapeSpec::prng(sc.u64());
     let tb = TapeSpec::prng(sc.u64());
     let (ambient_a, ambient_b, kind) = match batch {
-        "twins-seeded" | "twins-clf" | "twins-reg" => (Some(ta), Some(tb), "ambient seeded / seeded-other"),
+        "twins-seeded" | "twins-clf" | "twins-reg" | "twins-f32" => (Some(ta), Some(tb), "ambient seeded / seeded-other"),
         "twins-extreme" => {
             let mut e = tb;
             e.extreme_pm = *pr.pick(&[200u32, 1000]);
@@ -842,7 +901,7 @@ fn gen_case(batch: &str, _index: u64, seed: u64) -> Case {
         ops.push(pr.below(5) as u8);
     }
     pr.shuffle(&mut ops);
-    Case { task: task.into(), x, y, params, queries, ambient_a, ambient_b, pollute: pr.chance(0.5), ops, refit_same_thread: pr.chance(0.5), kind: kind.into(), ctor: pr.below(3) as u8 }
+    Case { task: task.into(), x, y, params, queries, ambient_a, ambient_b, pollute: pr.chance(0.5), ops, refit_same_thread: pr.chance(0.5), kind: kind.into(), ctor: pr.below(3) as u8, f32m }
 }
 
 impl Property for C06 {
@@ -855,6 +914,7 @@ impl Property for C06 {
         vec![
             Batch { name: "twins-clf", count: if q { 10_000 } else { 500_000 }, simulated: true, exhaustive: false, note: "classifier twins: fit A under ambient stream alpha, pollution, fit B on a fresh thread under stream gamma" },
             Batch { name: "twins-reg", count: if q { 10_000 } else { 500_000 }, simulated: true, exhaustive: false, note: "regressor twins, same protocol" },
+            Batch { name: "twins-f32", count: if q { 5_000 } else { 250_000 }, simulated: true, exhaustive: false, note: "classifier and regressor twins in single precision" },
             Batch { name: "twins-extreme", count: if q { 5_000 } else { 250_000 }, simulated: true, exhaustive: false, note: "twin B's ambient RNG serves extreme words" },
             Batch { name: "twins-none", count: if q { 5_000 } else { 250_000 }, simulated: true, exhaustive: false, note: "no simulator source installed for one or both twins (real OS-seeded ThreadRng)" },
         ]
@@ -993,7 +1053,7 @@ impl Property for C06 {
     }
     fn sample(&self, case: &Case, report: &Report) -> Value {
         json!({
-            "task": case.task, "kind": case.kind, "n": case.x.len(), "p": case.x[0].len(), "params": case.params, "pollute": case.pollute, "call_sequence": case.ops,
+            "task": case.task, "kind": case.kind, "n": case.x.len(), "p": case.x[0].len(), "params": case.params, "f32": case.f32m, "pollute": case.pollute, "call_sequence": case.ops,
             "first_rows": case.x.iter().take(2).collect::<Vec<_>>(), "first_targets": case.y.iter().take(6).collect::<Vec<_>>(),
             "ambient_a": case.ambient_a.as_ref().map(|t| json!({"seed": t.seed, "extreme_per_mille": t.extreme_pm})),
             "ambient_b": case.ambient_b.as_ref().map(|t| json!({"seed": t.seed, "extreme_per_mille": t.extreme_pm})),
